@@ -94,3 +94,14 @@ impl Network {
 
 pub trait AsyncReadWrite: AsyncRead + AsyncWrite + Send + Unpin {}
 impl<T> AsyncReadWrite for T where T: AsyncRead + AsyncWrite + Send + Unpin {}
+
+#[cfg(feature = "verif")]
+impl Network {
+    /// (bytes read but not yet framed, bytes written but not yet flushed)
+    pub fn verif_buffers(&self) -> (Vec<u8>, Vec<u8>) {
+        (
+            self.framed.read_buffer().to_vec(),
+            self.framed.write_buffer().to_vec(),
+        )
+    }
+}
